@@ -35,6 +35,8 @@ impl WakerVec {
 
     /// Access the `Readiness`.
     pub(crate) fn readiness(&self) -> MutexGuard<'_, ReadinessVec> {
+        #[cfg(feature = "fc-verif")]
+        crate::utils::verif::register(&self.readiness);
         self.readiness.lock().unwrap()
     }
 
